@@ -6,32 +6,72 @@ theorem sliceNat_getElem? (s : List Char) (a l k : Nat) :
     (sliceNat s a l)[k]? = if k < l then s[a + k]? else none := by
   simp [sliceNat, List.getElem?_take, List.getElem?_drop]
 
-/-- two windows are the same list when their clipped extents agree (or both are empty) -/
-theorem sliceNat_congr (s : List Char) (a l a' l' : Nat)
-    (h : (a = a' ∧ min (a + l) s.length = min (a' + l') s.length) ∨
-         ((s.length ≤ a ∨ l = 0) ∧ (s.length ≤ a' ∨ l' = 0))) :
-    sliceNat s a l = sliceNat s a' l' := by
-  apply List.ext_getElem?; intro k
-  simp only [sliceNat_getElem?]
-  by_cases h1 : a + k < s.length <;> by_cases h2 : a' + k < s.length
-  · have e1 : a = a' := by omega
-    subst e1
-    have : (k < l) ↔ (k < l') := by omega
-    by_cases hk : k < l <;> simp_all
-  · have := List.getElem?_eq_none (l := s) (i := a' + k) (by omega)
-    split <;> split <;> simp_all <;> omega
-  · have := List.getElem?_eq_none (l := s) (i := a + k) (by omega)
-    split <;> split <;> simp_all <;> omega
-  · have := List.getElem?_eq_none (l := s) (i := a' + k) (by omega)
-    have := List.getElem?_eq_none (l := s) (i := a + k) (by omega)
-    split <;> split <;> simp_all
-
 theorem sliceNat_nil (s : List Char) (a l : Nat) (h : s.length ≤ a ∨ l = 0) : sliceNat s a l = [] := by
   rcases h with h | h
   · simp [sliceNat, List.drop_eq_nil_of_le h]
   · simp [sliceNat, h]
 
+/-- two windows are the same list when their clipped extents agree (or both are empty) -/
+theorem sliceNat_congr (s : List Char) (a l a' l' : Nat)
+    (h : (a = a' ∧ min (a + l) s.length = min (a' + l') s.length) ∨
+         ((s.length ≤ a ∨ l = 0) ∧ (s.length ≤ a' ∨ l' = 0))) :
+    sliceNat s a l = sliceNat s a' l' := by
+  rcases h with ⟨rfl, h⟩ | ⟨h1, h2⟩
+  · apply List.ext_getElem?; intro k
+    simp only [sliceNat_getElem?]
+    by_cases hk : a + k < s.length
+    · have : (k < l) ↔ (k < l') := by omega
+      by_cases hk2 : k < l
+      · have : k < l' := by omega
+        simp [*]
+      · have : ¬ k < l' := by omega
+        simp [*]
+    · have := List.getElem?_eq_none (l := s) (i := a + k) (by omega)
+      split <;> split <;> simp_all
+  · rw [sliceNat_nil s a l h1, sliceNat_nil s a' l' h2]
+
 theorem sliceNat_whole (s : List Char) (l : Nat) (h : s.length ≤ l) : sliceNat s 0 l = s := by
   simp [sliceNat, List.take_of_length_le h]
+
+
+/-! ### closed forms of what STRING_SLICE computes -/
+
+/-- value of `index_sql`: the 1-based position handed to substr (`n` = what `length(expr)` returns) -/
+def indexVal (d : Dialect) (n a : Int) : Int :=
+  if d = .pg ∧ a < 0 then n + a + 1 else if a ≥ 0 then a + 1 else a
+
+/-- value of `len_sql`; `raw` = both bounds are constants (no `MAX(…, 0)` around the same-sign difference) -/
+def lenVal (d : Dialect) (n : Int) (raw : Bool) (a b : Int) : Int :=
+  if (a ≥ 0 ∧ b ≥ 0) ∨ (a < 0 ∧ b < 0) then (if raw then b - a else max (b - a) 0)
+  else if a ≥ 0 then max (n - (a - b)) 0
+  else max (b + 1 - indexVal d n a) 0
+
+theorem pySlice_none_start (s : List Char) (j : Option Int) : pySlice s none j = pySlice s (some 0) j := by
+  simp [pySlice, adjIdx]
+  split <;> simp_all <;> omega
+
+theorem indexVal_pg (n a : Int) : indexVal .pg n a = if a < 0 then n + a + 1 else a + 1 := by
+  unfold indexVal; simp; omega
+
+theorem indexVal_other (d : Dialect) (h : d ≠ .pg) (n a : Int) : indexVal d n a = if a ≥ 0 then a + 1 else a := by
+  unfold indexVal; simp [h]
+
+-- sign split used by the arithmetic lemmas: every `if` on the signs of `a`, `b` and on `raw` is decided
+set_option hygiene false in
+macro "sign_cases" a:ident b:ident raw:ident : tactic => `(tactic|
+  (by_cases ha : $a < 0 <;> by_cases hb : $b < 0 <;> cases $raw:ident))
+
+/-- PostgreSQL, three-argument form -/
+theorem pg_substr3 (s : List Char) (raw : Bool) (a b : Int)
+    (hg : ¬ (raw = true ∧ ((a ≥ 0 ∧ b ≥ 0) ∨ (a < 0 ∧ b < 0)) ∧ b < a)) :
+    substr3V .pg s (indexVal .pg s.length a) (lenVal .pg s.length raw a b) = .ok (.str (pySlice s (some a) (some b))) := by
+  have hl : ¬ lenVal .pg s.length raw a b < 0 := by
+    simp only [lenVal, indexVal_pg]
+    cases raw <;> simp at hg ⊢ <;> omega
+  simp only [substr3V, hl, if_false, pySlice]
+  congr 2
+  apply sliceNat_congr
+  simp only [lenVal, indexVal_pg, adjIdx]
+  sign_cases a b raw <;> simp [ha, hb] at hg ⊢ <;> omega
 
 end PonyVerif.Model.SqlStr
